@@ -302,6 +302,85 @@ func Run(run *core.Run) {
 	runScheduled(run)
 }
 
+// wstate is one worker goroutine's private state; the main goroutine reads it only after joining
+// the worker through its done channel.
+type wstate struct {
+	res   []opResult
+	trace []string
+	pi    *core.PanicInfo
+	done  chan struct{}
+}
+
+var (
+	fineAvailable bool      // the binary was built against the yield-instrumented copy of /repo
+	fineMode      bool      // this run uses function-entry decision points
+	curWorkers    []*wstate // set before the workers start; each worker touches only its own entry
+)
+
+type concResult struct {
+	ws       []*wstate
+	trace    []string
+	aborted  bool
+	doneMask uint32
+}
+
+// concurrentPhase runs the workers of w under the scheduler with fresh shared resolver instances.
+func concurrentPhase(run *core.Run, w *workload, cfg sched.Config, fine bool) concResult {
+	nworkers := len(w.workers)
+	shared := env{ident: newIdentResolver(w.identKind, w.failPaths), name: faults.NameResolver(w.nameKind, gen.Truth())}
+	s := theSched
+	s.Reset(cfg)
+	ws := make([]*wstate, nworkers)
+	for i := range ws {
+		ws[i] = &wstate{done: make(chan struct{})}
+	}
+	curWorkers = ws
+	fineMode = fine
+	for i := range ws {
+		i := i
+		st := ws[i]
+		ps := w.workers[i]
+		go func() {
+			defer close(st.done)
+			aborted := false
+			st.pi = core.Catch(func() {
+				defer func() {
+					if v := recover(); v != nil {
+						if _, ok := v.(sched.Aborted); ok {
+							aborted = true
+							return
+						}
+						panic(v)
+					}
+				}()
+				s.Wait(i)
+				y := func(site string) {
+					step := s.Yield(i)
+					st.trace = append(st.trace, fmt.Sprintf("%06d w%d %s", step, i, site))
+				}
+				for j, p := range ps {
+					execPipe(j, p, shared, y, &st.res)
+				}
+			})
+			if !aborted {
+				s.Finish(i)
+			}
+		}()
+	}
+	s.Go(cfg.First)
+	doneMask, aborted := s.AwaitAll()
+	s.Deactivate()
+	var trace []string
+	for i, st := range ws {
+		if doneMask&(1<<uint(i)) != 0 {
+			<-st.done // real happens-before edge: only now may the main goroutine read st
+			trace = append(trace, st.trace...)
+		}
+	}
+	sort.Strings(trace)
+	return concResult{ws: ws, trace: trace, aborted: aborted, doneMask: doneMask}
+}
+
 func runScheduled(run *core.Run) {
 	t := run.T
 	w := &workload{}
@@ -347,7 +426,12 @@ func runScheduled(run *core.Run) {
 	}
 
 	// ---- schedule, from the tape
+	fine := t.Bool(1, 2) && fineAvailable // decision points at every function entry (instrumented build)
 	cfg := sched.Config{Workers: nworkers, Policy: t.Draw(sched.NumPolicies), First: t.Draw(nworkers)}
+	if fine {
+		// roughly 40 instrumented function entries per source byte through decorate+restore
+		total *= 60
+	}
 	switch cfg.Policy {
 	case sched.PolicyChangePoints:
 		ncp := t.Draw(9)
@@ -359,74 +443,49 @@ func runScheduled(run *core.Run) {
 		}
 		sort.Slice(cfg.ChangePoints, func(i, j int) bool { return cfg.ChangePoints[i][0] < cfg.ChangePoints[j][0] })
 	case sched.PolicyRoundRobin:
-		cfg.Param = []int{1, 1, 2, 3, 5, 17}[t.Draw(6)]
+		if fine {
+			cfg.Param = []int{1, 7, 50, 333, 2000, 11}[t.Draw(6)]
+		} else {
+			cfg.Param = []int{1, 1, 2, 3, 5, 17}[t.Draw(6)]
+		}
 	case sched.PolicySticky:
-		cfg.Param = []int{20, 100, 500, 900}[t.Draw(4)]
+		if fine {
+			cfg.Param = []int{1, 5, 50, 300}[t.Draw(4)]
+		} else {
+			cfg.Param = []int{20, 100, 500, 900}[t.Draw(4)]
+		}
 		cfg.Seed = uint64(t.Draw(1<<30))<<1 | 1
 	}
-	run.Describe("schedule: policy=%s param=%d first=%d change-points=%v (estimated decision points: %d)", sched.PolicyNames[cfg.Policy], cfg.Param, cfg.First, cfg.ChangePoints, total)
+	run.Describe("schedule: granularity=%s policy=%s param=%d first=%d change-points=%v (estimated decision points: %d)", map[bool]string{true: "function-entry", false: "resolver-call"}[fine], sched.PolicyNames[cfg.Policy], cfg.Param, cfg.First, cfg.ChangePoints, total)
 
 	// ---- the concurrent run: shared instances, real goroutines, invisible serialisation
-	shared := env{ident: newIdentResolver(w.identKind, w.failPaths), name: faults.NameResolver(w.nameKind, gen.Truth())}
-	s := theSched
-	s.Reset(cfg)
-	type wstate struct {
-		res   []opResult
-		trace []string
-		pi    *core.PanicInfo
-		done  chan struct{}
-	}
-	ws := make([]*wstate, nworkers)
 	racesBefore := raceorc.Errors()
 	raceorc.Drain()
-	for i := range ws {
-		i := i
-		st := &wstate{done: make(chan struct{})}
-		ws[i] = st
-		ps := w.workers[i]
-		go func() {
-			defer close(st.done)
-			aborted := false
-			st.pi = core.Catch(func() {
-				defer func() {
-					if v := recover(); v != nil {
-						if _, ok := v.(sched.Aborted); ok {
-							aborted = true
-							return
-						}
-						panic(v)
-					}
-				}()
-				s.Wait(i)
-				y := func(site string) {
-					step := s.Yield(i)
-					st.trace = append(st.trace, fmt.Sprintf("%06d w%d %s", step, i, site))
-				}
-				for j, p := range ps {
-					execPipe(j, p, shared, y, &st.res)
-				}
-			})
-			if !aborted {
-				s.Finish(i)
-			}
-		}()
+	cr := concurrentPhase(run, w, cfg, fine)
+	if cr.aborted && fine {
+		// The turn holder blocked for real. With function-entry decision points that can be the
+		// simulator's own doing (a goroutine parked inside a synchronisation this build does not
+		// know how to bracket), so it proves nothing about dst: the workload is run again with
+		// decision points at resolver calls only, where a parked goroutine never holds a dst lock.
+		run.Count("fine-run-abandoned(turn-holder-blocked)")
+		fine = false
+		racesBefore = raceorc.Errors()
+		raceorc.Drain()
+		cr = concurrentPhase(run, w, cfg, false)
 	}
-	s.Go(cfg.First)
-	doneMask, aborted := s.AwaitAll()
-	var trace []string
-	for i, st := range ws {
-		if doneMask&(1<<uint(i)) != 0 {
-			<-st.done // real happens-before edge: only now may the main goroutine read st
-			trace = append(trace, st.trace...)
-		}
-	}
-	sort.Strings(trace)
+	ws, trace, aborted, doneMask := cr.ws, cr.trace, cr.aborted, cr.doneMask
+	s := theSched
 	for _, l := range trace {
 		run.Event("%s", l)
 	}
 	run.Add("decision-points", int64(s.Steps()))
 	run.Add("context-switches", int64(s.Switches()))
 	run.Count("scheduled-runs")
+	if fine {
+		run.Count("granularity/function-entry")
+	} else {
+		run.Count("granularity/resolver-call")
+	}
 	run.Count("policy/" + sched.PolicyNames[cfg.Policy])
 	run.Count("shared/" + identKindNames[w.identKind])
 	if w.failPaths != nil {
